@@ -23,6 +23,7 @@ and receivers, arbitrary time stamps (equal, decreasing, far apart) unless `Mono
 every window length `w` (0 included) and every decodability predicate.
 -/
 import Rs1090.Proofs.DedupStrict
+import Rs1090.Proofs.DedupEof
 import Rs1090.Model.Decode.Message
 namespace Rs1090.Props.C10
 open Rs1090 Rs1090.Dedup
@@ -229,7 +230,8 @@ theorem window_zero (dec : Frame → Bool) (hist : List Arrival) :
     | nil => rfl
     | cons a as ih =>
       have h1 : stepG 0 init a = (init, [(a.frame, [a])]) := by
-        simp [stepG, init, push, Dedup.get, expire, popMin, minKey, Dedup.remove]
+        simp [stepG, init, push, Dedup.get, expire, popMin, minKey, Dedup.remove, isFirst_eq, expiry_eq,
+          notExpired_eq]
       simp only [runG, h1, ih, List.map_cons, List.singleton_append]
   rw [key]
   simp only [records, List.filter_map, List.map_map]
@@ -264,20 +266,83 @@ theorem never_panics (w : Nat) (dec : Frame → Bool) (hist : List Arrival)
 theorem fuel_irrelevant (t n m : Nat) (s : State) (hn : s.heap.length < n) (hm : s.heap.length < m) :
     expire t n s = expire t m s := expire_fuel t n m s hn hm
 
-/-! ### decode1090's inline copy: the same loop, plus a flush at end of file -/
+/-! ### The two copies of the loop in the source, and the model
+
+`Gen/Dedup.lean` is regenerated on every run from crates/jet1090/src/dedup.rs and from the inline copy in
+crates/decode1090/src/main.rs (gen/extractors/dedup.py: whole-text template match; the holes are the
+operators and constants below, the shape alternatives are the three structural facts).  The model uses the
+generated functions; these three theorems state everything the proofs above and below need of them, so
+that a changed operator, constant or structure of either copy breaks a theorem that names the copy. -/
+
+/-- What every lemma on decode1090's copy assumes (`Proofs/DedupEof.lean: CopiesAgree`): its three operators
+    are those of dedup.rs, it flushes at end of file and dedup.rs does not. -/
+theorem copies_agree_ops : CopiesAgree := ⟨fun _ _ => rfl, fun _ _ => rfl, fun _ => rfl, rfl, rfl⟩
+
+/-- **jet1090's loop is the loop modelled**: `(ts * 1e3) as u128`; the heap push happens when
+    `cache[&frame].len() == 1`, with expiry `timestamp_ms + threshold`; the expiry loop stops at the first
+    entry with `curtime > timestamp_ms`; the arrival is inserted BEFORE the expiry loop runs; nothing is sent
+    when the input channel closes. -/
+theorem jet_loop_as_modelled :
+    Gen.Dedup.jet = { msOp := .mul, msFactor := 1000, firstOp := some .eq, firstLen := some 1,
+                      windowOp := .add, expiryOp := .gt,
+                      insertBeforeExpire := true, pushOnlyOnFirst := true, flushAtEof := false } ∧
+    Gen.Dedup.Jet.msFactor = 1000 ∧
+    (∀ len, Gen.Dedup.Jet.isFirst len = decide (len = 1)) ∧
+    (∀ t w, Gen.Dedup.Jet.expiry t w = t + w) ∧
+    (∀ curtime t, Gen.Dedup.Jet.notExpired curtime t = decide (t < curtime)) ∧
+    Gen.Dedup.Jet.insertBeforeExpire = true ∧ Gen.Dedup.Jet.pushOnlyOnFirst = true ∧
+    Gen.Dedup.Jet.flushAtEof = false ∧
+    (∀ w dec hist, runClose w dec hist = (run w dec init hist).2) :=
+  ⟨by decide, rfl, isFirst_eq, expiry_eq, notExpired_eq, rfl, rfl, rfl, runClose_eq copies_agree_ops⟩
+
+/-- **decode1090's copy is the loop modelled**: the same operators and constants read from ITS text, the same
+    order of insertion and expiry, and a flush at end of file; hence its iteration (`stepGD`, written with
+    its own operators) is `stepG`, and a file gives the records of the loop followed by the flushed ones. -/
+theorem decode1090_loop_as_modelled :
+    Gen.Dedup.decode1090 = { msOp := .mul, msFactor := 1000, firstOp := some .eq, firstLen := some 1,
+                             windowOp := .add, expiryOp := .gt,
+                             insertBeforeExpire := true, pushOnlyOnFirst := true, flushAtEof := true } ∧
+    Gen.Dedup.Decode1090.msFactor = 1000 ∧
+    (∀ len, Gen.Dedup.Decode1090.isFirst len = decide (len = 1)) ∧
+    (∀ t w, Gen.Dedup.Decode1090.expiry t w = t + w) ∧
+    (∀ curtime t, Gen.Dedup.Decode1090.notExpired curtime t = decide (t < curtime)) ∧
+    Gen.Dedup.Decode1090.insertBeforeExpire = true ∧ Gen.Dedup.Decode1090.pushOnlyOnFirst = true ∧
+    Gen.Dedup.Decode1090.flushAtEof = true ∧
+    (∀ w s a, stepGD w s a = stepG w s a) ∧
+    (∀ w dec hist, runFlush w dec hist = (run w dec init hist).2 ++
+      (flush (run w dec init hist).1.heap.length (run w dec init hist).1).flatMap (emit dec)) :=
+  ⟨by decide, rfl, fun _ => rfl, fun _ _ => rfl, fun c t => by simp [Gen.Dedup.Decode1090.notExpired],
+   rfl, rfl, rfl, stepGD_eq copies_agree_ops, runFlush_eq copies_agree_ops⟩
+
+/-- **the two copies implement the same rule; decode1090 additionally flushes**: as data they differ in
+    `flushAtEof` only, their operators are the same functions, and on every history, from every state, the
+    copy writes while reading what `deduplicate_messages` sends. -/
+theorem copies_agree :
+    Gen.Dedup.decode1090 = { Gen.Dedup.jet with flushAtEof := true } ∧
+    Gen.Dedup.jet.flushAtEof = false ∧
+    Gen.Dedup.Decode1090.msFactor = Gen.Dedup.Jet.msFactor ∧
+    Gen.Dedup.Decode1090.isFirst = Gen.Dedup.Jet.isFirst ∧
+    Gen.Dedup.Decode1090.expiry = Gen.Dedup.Jet.expiry ∧
+    Gen.Dedup.Decode1090.notExpired = Gen.Dedup.Jet.notExpired ∧
+    (∀ w dec s hist, runD w dec s hist = run w dec s hist) :=
+  ⟨by decide, by decide, rfl, rfl, rfl, rfl, fun w dec s hist => runD_eq copies_agree_ops w dec hist s⟩
+
+/-- The harness writes a time stamp as the whole number of milliseconds it computes with its own copy of
+    `(ts * 1e3) as u128`; under the factor found in either source text that is the value the loop computes. -/
+theorem timestampMs_id (m : Nat) :
+    timestampMs Gen.Dedup.Jet.msFactor m = m ∧ timestampMs Gen.Dedup.Decode1090.msFactor m = m := by
+  simp [timestampMs, Gen.Dedup.Jet.msFactor, Gen.Dedup.Decode1090.msFactor]
+
+/-! ### decode1090: with the flush at end of file nothing is pending -/
 
 /-- The records decode1090 writes for a file are those of the specification with a final flush:
     the groups still open at end of file leave too, ordered like the others. -/
 theorem eof_flush_refines (w : Nat) (dec : Frame → Bool) (hist : List Arrival) :
     runFlush w dec hist = Spec.Dedup.runFlush w dec hist := by
-  have hinv := inv_runG (w := w) hist (Dedup.inv_init w)
   have href : ((runG w init hist).1.cache, (runG w init hist).2) = Spec.Dedup.runG w [] hist :=
     runG_refines (w := w) hist (Dedup.inv_init w)
-  have hwf : ∀ g ∈ sortBy (runG w init hist).1.cache, WellFormed g := fun g hg =>
-    hinv.wf g ((sortBy_perm _).subset hg)
-  simp only [runFlush, Spec.Dedup.runFlush, records_of_groups, flush_eq_sortBy hinv,
-    flatMap_emit dec hwf, records_append]
-  rw [← href]
+  rw [runFlush_groups copies_agree_ops]
+  simp only [Spec.Dedup.runFlush, fileGroups, ← href]
 
 /-- … and with the flush nothing stays behind: the lines of the file are, as a multiset, the members
     of the groups written ⊎ the members of the undecodable groups. -/
@@ -285,18 +350,86 @@ theorem eof_flush_conservation (w : Nat) (dec : Frame → Bool) (hist : List Arr
     ∃ groups : List Group, runFlush w dec hist = records dec groups ∧
       hist.Perm (members (groups.filter (fun g => dec g.1)) ++
                  members (groups.filter (fun g => !dec g.1))) := by
+  refine ⟨fileGroups w hist, runFlush_groups copies_agree_ops w dec hist, ?_⟩
+  rw [← members_append]
+  exact (fileGroups_members w hist).trans (members_perm (List.filter_append_perm _ _)).symm
+
+/-- **conservation at end of file, full strength** (no "pending" term): the records written for a file are
+    the records of a list of groups — each with a decodable frame, non-empty, all members carrying that
+    frame, members a subsequence of the file (arrival order) — and the lines of the file whose frame
+    decodes are, as a multiset, exactly the members of these groups: every decodable line is a member of
+    exactly one written record, no line is invented, lost or duplicated. -/
+theorem eof_conservation (w : Nat) (dec : Frame → Bool) (hist : List Arrival) :
+    ∃ groups : List Group, runFlush w dec hist = groups.map recordOf ∧
+      (∀ g ∈ groups, dec g.1 = true ∧ WellFormed g ∧ g.2.Sublist hist) ∧
+      (hist.filter (fun a => dec a.frame)).Perm (members groups) := by
+  refine ⟨(fileGroups w hist).filter (fun g => dec g.1), ?_, ?_, ?_⟩
+  · rw [runFlush_groups copies_agree_ops]; rfl
+  · intro g hg
+    have := List.mem_filter.mp hg
+    exact ⟨this.2, fileGroups_wf w hist g this.1, fileGroups_sublist w hist g this.1⟩
+  · rw [← members_filter dec _ (fileGroups_wf w hist)]
+    exact (fileGroups_members w hist).filter _
+
+/-- … the same on receptions (metadata entries): the receptions of the decodable lines are, as a multiset,
+    the receptions carried by the records written. -/
+theorem eof_conservation_rx (w : Nat) (dec : Frame → Bool) (hist : List Arrival) :
+    ((hist.filter (fun a => dec a.frame)).flatMap (·.rx)).Perm ((runFlush w dec hist).flatMap (·.rx)) := by
+  rw [runFlush_groups copies_agree_ops, records_rx, ← members_filter dec _ (fileGroups_wf w hist)]
+  exact ((fileGroups_members w hist).filter _).flatMap_right _
+
+/-- **exactly once at end of file**: if the receptions of the file are pairwise distinct, every reception of
+    a line whose frame decodes occurs exactly once among the receptions of all records written (in one
+    record, once in it), and no record carries anything else. -/
+theorem eof_exactly_once (w : Nat) (dec : Frame → Bool) (hist : List Arrival)
+    (h : (hist.flatMap (·.rx)).Nodup) :
+    (∀ a ∈ hist, dec a.frame = true → ∀ id ∈ a.rx,
+      ((runFlush w dec hist).flatMap (·.rx)).count id = 1) ∧
+    (∀ id ∈ (runFlush w dec hist).flatMap (·.rx), ∃ a ∈ hist, dec a.frame = true ∧ id ∈ a.rx) := by
+  have hp := eof_conservation_rx w dec hist
+  have hsub : ((hist.filter (fun a => dec a.frame)).flatMap (·.rx)).Sublist (hist.flatMap (·.rx)) :=
+    flatMap_filter_sublist _ _ _
+  have hnd := hsub.nodup h
+  constructor
+  · intro a ha hd id hid
+    rw [← hp.count_eq]
+    exact count_eq_one_of_nodup hnd
+      (List.mem_flatMap.mpr ⟨a, List.mem_filter.mpr ⟨ha, hd⟩, hid⟩)
+  · intro id hid
+    obtain ⟨a, ha, hid'⟩ := List.mem_flatMap.mp (hp.symm.subset hid)
+    have := List.mem_filter.mp ha
+    exact ⟨a, this.1, this.2, hid'⟩
+
+/-- the hypothesis of `eof_exactly_once` is satisfiable, and the conclusion is about a non-trivial file: two
+    receivers, a group closed by a later line, two groups written by the flush, an undecodable frame -/
+example : ([⟨0, [1], [10]⟩, ⟨100, [1], [20]⟩, ⟨500, [2], [11]⟩, ⟨600, [9], [12]⟩, ⟨700, [3], [13, 14]⟩]
+      : List Arrival).flatMap (·.rx) = [10, 20, 11, 12, 13, 14] ∧
+    ([10, 20, 11, 12, 13, 14] : List Nat).Nodup ∧
+    runFlush 400 (fun f => f != [9])
+      [⟨0, [1], [10]⟩, ⟨100, [1], [20]⟩, ⟨500, [2], [11]⟩, ⟨600, [9], [12]⟩, ⟨700, [3], [13, 14]⟩]
+    = [⟨[1], 0, [10, 20]⟩, ⟨[2], 500, [11]⟩, ⟨[3], 700, [13, 14]⟩] := by decide
+
+/-- **prefix**: what decode1090 writes for a file is what jet1090 sends on the same history
+    (`runClose`: its loop, and what it sends when the channel closes — nothing), followed by the records of
+    the groups still open at the end, by (first arrival, frame bytes); the receptions of those are the
+    pending receptions of decodable frames. -/
+theorem jet_records_prefix (w : Nat) (dec : Frame → Bool) (hist : List Arrival) :
+    runClose w dec hist = (run w dec init hist).2 ∧
+    runFlush w dec hist = runClose w dec hist ++ records dec (sortBy (run w dec init hist).1.cache) ∧
+    runClose w dec hist <+: runFlush w dec hist ∧
+    ((records dec (sortBy (run w dec init hist).1.cache)).flatMap (·.rx)).Perm
+      (((pending (run w dec init hist).1).filter (fun a => dec a.frame)).flatMap (·.rx)) := by
+  have hrun := run_eq dec hist (Dedup.inv_init w)
   have hinv := inv_runG (w := w) hist (Dedup.inv_init w)
-  have href : ((runG w init hist).1.cache, (runG w init hist).2) = Spec.Dedup.runG w [] hist :=
-    runG_refines (w := w) hist (Dedup.inv_init w)
-  refine ⟨(runG w init hist).2 ++ sortBy (runG w init hist).1.cache, ?_, ?_⟩
-  · rw [eof_flush_refines]
-    simp only [Spec.Dedup.runFlush, ← href]
-  · have h := runG_members (w := w) hist (Dedup.inv_init w)
-    simp only [pending, init, List.map_nil, List.flatten_nil, List.nil_append] at h
-    rw [← members_append]
-    refine ((members_perm (List.filter_append_perm _ _)).trans ?_).symm
-    rw [members_append]
-    exact (List.Perm.append_left _ (members_perm (sortBy_perm _))).trans h
+  have h2 : runFlush w dec hist
+      = runClose w dec hist ++ records dec (sortBy (run w dec init hist).1.cache) := by
+    rw [runFlush_groups copies_agree_ops, runClose_eq copies_agree_ops, hrun, fileGroups, records_append]
+  refine ⟨runClose_eq copies_agree_ops w dec hist, h2, ⟨_, h2.symm⟩, ?_⟩
+  rw [hrun]
+  have hwf : ∀ g ∈ sortBy (runG w init hist).1.cache, WellFormed g := fun g hg =>
+    hinv.wf g ((sortBy_perm _).subset hg)
+  rw [records_rx, ← members_filter dec _ hwf]
+  exact ((members_perm (sortBy_perm _)).filter _).flatMap_right _
 
 /-! ### Non-vacuity, sharpness, and what the property does *not* say -/
 
